@@ -406,7 +406,18 @@ func runConcurrency(rc *RunCtx) *Violation {
 	cfg.ParkDen = []int{2, 4, 8, 16, 64}[simrt.Choose(5)]
 	cfg.PCTDepth = 1 + simrt.Choose(3)
 	cfg.PCTLen = []int{1000, 10000, 100000}[simrt.Choose(3)]
-	rc.agg.Strategies[strategyNames[cfg.Strategy]]++
+	stratName := ""
+	if schedTarget != nil {
+		// directed witness schedule requested by the replay file
+		cfg.Strategy = simrt.StratTarget
+		cfg.TargetPark = sitesOf(schedTarget.Park)
+		cfg.TargetPeer = sitesOf(schedTarget.Peer)
+		cfg.TargetNth = schedTarget.Nth
+		stratName = fmt.Sprintf("target(park before %s, resume after a peer executed %s, arrival %d)", schedTarget.Park, schedTarget.Peer, schedTarget.Nth)
+	} else {
+		stratName = strategyNames[cfg.Strategy]
+	}
+	rc.agg.Strategies[stratName]++
 	taskResults := make([][]opResult, nTasks)
 	fns := make([]func(), nTasks)
 	for t := range fns {
@@ -537,7 +548,7 @@ func runConcurrency(rc *RunCtx) *Violation {
 			}
 			return &Violation{Signature: fmt.Sprintf("iso/%s/%s/%s", where, r.op.kind, phase),
 				Detail: fmt.Sprintf("%s on the %s (%s, strategy %s, %d tasks, %d context switches) returned %s but the same call on a fresh instance used in isolation returns %s; input=%s",
-					r.op.kind, what, r.by, strategyNames[cfg.Strategy], nTasks, st.Switches, clip(r.desc, 500), clip(ref, 500), quoteClip(r.op.input, 200)),
+					r.op.kind, what, r.by, stratName, nTasks, st.Switches, clip(r.desc, 500), clip(ref, 500), quoteClip(r.op.input, 200)),
 				Input: r.op.input}
 		}
 	}
@@ -588,11 +599,21 @@ func runConcurrency(rc *RunCtx) *Violation {
 		shared = append(shared, "ebnf package parser")
 	}
 	rc.note("shared", shared)
-	rc.note("strategy", strategyNames[cfg.Strategy])
+	rc.note("strategy", stratName)
 	rc.note("prefix_ops", nPrefix)
 	rc.note("tasks", plan)
 	rc.note("yields", st.Yields)
 	rc.note("switches", fmt.Sprintf("%d (statement-level %d, at hot sites %d, parks %d, directed resumes %d)", st.Switches, st.StmtSwitches, st.HotSwitches, st.Parks, st.DirectedResumes))
 	rc.note("operations_compared_with_isolated_reference", len(results))
 	return nil
+}
+
+func sitesOf(loc string) []int32 {
+	i := strings.LastIndex(loc, ":")
+	if i < 0 {
+		return nil
+	}
+	var line int
+	fmt.Sscanf(loc[i+1:], "%d", &line)
+	return simrt.SitesAt(loc[:i], line)
 }
